@@ -442,6 +442,7 @@ func cmdCheck(args []string) int {
 			from := w
 			done := 0
 			var all workerOut
+			idleStalls := 0
 			for part := 0; part < 20000; part++ {
 				remaining := tp.budget - time.Since(started)
 				if tp.budget > 0 && remaining <= time.Second {
@@ -459,6 +460,15 @@ func cmdCheck(args []string) int {
 					continue
 				}
 				if o.stalled {
+					// no progress while no run was in flight (process start-up, hand-over, exit): the machine, not a run. The
+					// worker was killed; carry on after the last completed run, and give up only if it keeps happening
+					idleStalls++
+					fmt.Fprintf(os.Stderr, "verifctl: note: worker %d made no progress for %v between runs (busy machine); restarted\n", w, tp.stall)
+					if idleStalls < 3 {
+						done += len(o.recs)
+						from += len(o.recs) * *workers
+						continue
+					}
 					all.stalled = true
 				}
 				if o.recycled > 0 && o.exitErr == nil {
